@@ -848,15 +848,19 @@ func (m *Model) dispatch(loc string, event map[string]interface{}, p Prot, honou
 			if !ok {
 				continue
 			}
+			if multi[n] {
+				// The engine collects the *candidate* rules of every ancestor it
+				// visits (by index on one state, all rules on the other) and
+				// reports a duplicate id before it matches anything: any rule in
+				// an ancestor reached twice may or may not be such a candidate.
+				return nil, errDiamond
+			}
 			bss, err := MatchBindings(pat, event)
 			if err != nil {
 				if honourDisabled && m.RuleDisabled(self, id) {
 					continue
 				}
 				return nil, refuse("matcher: %v", err)
-			}
-			if len(bss) > 0 && multi[n] {
-				return nil, errDiamond // (found twice by the engine before it looks at the disabled flag)
 			}
 			if honourDisabled && m.RuleDisabled(self, id) {
 				continue
